@@ -114,6 +114,8 @@ fn op(r: &mut R) -> Op {
         2 => {
             if r.below(3) == 0 {
                 Op::ResetSame
+            } else if r.below(2) == 0 {
+                Op::ResetDerived { how: r.below(14) as u8 }
             } else {
                 Op::Reset(raw_cfg(r))
             }
